@@ -266,13 +266,16 @@ def findAllIndex (P : Pattern) (seq : Bytes) (circular : Bool) (begin length : I
 def isMatching (P : Pattern) (seq : Bytes) (circular : Bool) (begin length : Int) : Bool :=
   !(findAllIndex P seq circular begin length).isEmpty
 
-/-- loop body of `FilterBestMatch` : state = (filtered (reversed), best) -/
+/-- loop body of `FilterBestMatch` : state = (filtered (reversed), best).  As repaired by
+`notes/patches/C10-filterbest-first-hit-beyond-10000.diff`: the sentinel `best = {0, 0, 10000}` is recognised before the
+overlap test (the unrepaired code compared the start of the first hit with `0 + 10000` and dropped every hit when the
+first one started at `10000 + err` or later). -/
 def filterStep (st : List Hit × Hit) (m : Hit) : List Hit × Hit :=
   let (filtered, best) := st
-  if m.1 - m.2.2 < best.2.1 + best.2.2 then
+  if best.2.2 < 10000 && m.1 - m.2.2 < best.2.1 + best.2.2 then
     if m.2.2 < best.2.2 then (filtered, m) else (filtered, best)
   else if best.2.2 < 10000 then (best :: filtered, m)
-  else (filtered, best)
+  else (filtered, m)
 
 /-- `FilterBestMatch` on the result of `FindAllIndex` -/
 def filterBest (res : List Hit) : List Hit :=
